@@ -56,6 +56,15 @@ class C03(PropCheck):
         else:
             res.exhaustive_blocks.append(f"all {len(ps)} ordered pairs over the 43-call register-sharing alphabet")
         cs += [(p, "config-pairs") for p in ps]
+        # the calls that interact through pipe 0 and the role: every sequence of 4 (thorough: 5), then the registers are read back
+        import itertools
+        core = ["open_rx_pipe 0 3132333435", "close_rx_pipe 0", "open_tx_pipe a1a2a3a4a5", "set listen T", "set listen F",
+                "set_auto_ack F 0", "set_auto_ack T 0"]
+        k = 4 if tier == "quick" else 5
+        for seq in itertools.product(core, repeat=k):
+            cs.append(("rf 1 1 new a rf24 0 ; a enter ; " + " ; ".join("a " + x for x in seq) + " ; a address 0 ; a get listen ; a get auto_ack",
+                       f"pipe0-role-depth{k}"))
+        res.exhaustive_blocks.append(f"all {len(core) ** k} sequences of {k} pipe-0 / role calls")
         return cs
 
     def nontrivial(self, line, io):
